@@ -9,6 +9,7 @@ use nostr::{Event, EventId, JsonUtil, Timestamp, UnsignedEvent};
 use openmls::prelude::ApplicationMessage;
 
 use crate::MDK;
+use crate::error::Error;
 
 use super::Result;
 
@@ -51,6 +52,14 @@ where
         let mut rumor: UnsignedEvent = UnsignedEvent::from_json(bytes)?;
 
         self.verify_rumor_author(&rumor.pubkey, sender_credential)?;
+
+        // The rumor id is the storage key of the message. It is chosen by the (possibly
+        // malicious) sender: accept it only when it is the NIP-01 hash of the rumor's own
+        // fields, otherwise a member could overwrite another author's stored message by
+        // sending a rumor that carries that message's id.
+        rumor
+            .verify_id()
+            .map_err(|_| Error::Message("rumor id does not match its content".to_string()))?;
 
         let rumor_id: EventId = rumor.id();
 
